@@ -65,11 +65,27 @@ def run_profile(ctx, prop, profile, nseq, nops, size, kinds=None, seed_off=0, sh
                 stats['nontrivial'].add(hash((s['proc'], s['id'], r['index'])))
         if r.get('panic'):
             steps.append(dict(id='?', proc='server', panic=True, reply=1, nabs=0, nwf=0, alloc=1, detail=r['panic'][:600]))
-        i = vlib.first_failure(steps)
         try:
             os.remove(r['trace'])
         except OSError:
             pass
+        # a step that only hits an open finding and leaves model and implementation in agreement
+        # (no abstraction mismatch) does not end the sequence
+        findings = vlib.load_findings()
+        i = None
+        for j, s_ in enumerate(steps):
+            if s_['panic'] or not s_['reply'] or s_['nabs'] or s_['nwf'] or not s_['alloc']:
+                k_, p_, d_ = signature(s_)
+                kf = vlib.match_finding(Failure(prop, k_, p_, d_), findings)
+                if kf is not None and not s_['panic'] and s_['nabs'] == 0 and s_['nwf'] == 0 and s_['alloc']:
+                    f0 = Failure(prop, k_, p_, d_, replay=dict(header=hdr, ops=ops, failing_step=s_['id'], profile=profile))
+                    f0.foreign = False
+                    if kf['id'] not in [getattr(x, 'kf', None) for x in fails]:
+                        f0.kf = kf['id']
+                        fails.append(f0)
+                    continue
+                i = j
+                break
         if i is None:
             continue
         st = steps[i]
